@@ -5,6 +5,7 @@ import StepModel.ExpEntitySynLemmas
 import StepModel.ExpStmtSynLemmas
 import StepModel.ExpTypeDeclSynLemmas
 import StepModel.ExpSchemaSynLemmas
+import StepModel.ExpStmtFuel
 /-!
 # C07 — pretty-printed EXPRESS is valid, equivalent to its source and stable
 
@@ -293,6 +294,14 @@ a statement (END_FUNCTION, END_IF, ELSE, …) -/
 theorem C07_statements_roundtrip (s : Stmt) (h : wfStmts s) (r : List DTok) (hr : startsStmt r = false) :
     ∃ n0, ∀ n, n0 ≤ n → parseStmts n (stmtsToks s ++ r) = some (s, r) :=
   stmts_roundtrip s h r hr
+
+/-- **Explicit fuel for the statement reader**: `C07_statement_roundtrip` / `C07_statements_roundtrip` with the bound spelled out —
+`fuelS s`, computed from the statement alone: its nesting depth plus the longest actual-parameter / label list (1 for a simple
+statement, `+ 1` per level of BEGIN / IF / CASE / REPEAT / ALIAS and per list element position) -/
+theorem C07_statement_roundtrip_fuel (s : Stmt) :
+    (wfStmt s → ∀ n, fuelS s ≤ n → ∀ r, parseStmt n (stmtToks s ++ r) = some (s, r))
+      ∧ (wfStmts s → ∀ n, fuelS s ≤ n → ∀ r, startsStmt r = false → parseStmts n (stmtsToks s ++ r) = some (s, r)) :=
+  ⟨(stmt_fuel s).1, (stmt_fuel s).2.1⟩
 
 /-! ### TYPE declarations, CONSTANT blocks, algorithm bodies -/
 
